@@ -56,6 +56,7 @@ type EmbedUnexported struct {
 type Money struct{ Units, Nanos int64 }
 type Celsius float64
 type Tags []string
+type Ratio float64 // registered with a union whose null branch comes second
 
 type tcase struct {
 	name string
@@ -86,6 +87,7 @@ func kinds() []reflect.Type {
 		gv.TimeT, reflect.PointerTo(gv.TimeT), reflect.SliceOf(gv.TimeT), reflect.MapOf(reflect.TypeOf(""), gv.TimeT),
 		gv.NullIntT, gv.NullBoolT, gv.NullFloatT, gv.NullStringT, gv.NullTimeT, reflect.PointerTo(gv.NullIntT), reflect.SliceOf(gv.NullStringT), reflect.MapOf(reflect.TypeOf(""), gv.NullFloatT),
 		reflect.TypeOf(Money{}), reflect.TypeOf(&Money{}), reflect.TypeOf([]Money(nil)), reflect.TypeOf(map[string]Money(nil)), reflect.TypeOf(Celsius(0)), reflect.TypeOf((*Celsius)(nil)), reflect.TypeOf(Tags(nil)), reflect.TypeOf([]Tags(nil)),
+		reflect.TypeOf(Ratio(0)), reflect.TypeOf((*Ratio)(nil)), reflect.TypeOf([]Ratio(nil)), reflect.TypeOf(map[string]*Ratio(nil)),
 	}
 }
 
@@ -174,6 +176,9 @@ func initC15(c *fw.Ctx) {
 	cs, _ := avro.SchemaFromString(`{"type":"fixed","name":"celsius","size":8}`)
 	avro.RegisterSchema(reflect.TypeOf(Celsius(0)), cs)
 	registry[reflect.TypeOf(Celsius(0))] = &ref.Schema{Type: "fixed", Name: "celsius", Size: 8}
+	rsch, _ := avro.SchemaFromString(`["double","null"]`)
+	avro.RegisterSchema(reflect.TypeOf(Ratio(0)), rsch)
+	registry[reflect.TypeOf(Ratio(0))] = ref.Union(ref.Prim("double"), ref.Prim("null"))
 	ts, _ := avro.SchemaFromString(`["null","string"]`)
 	avro.RegisterSchema(reflect.TypeOf(Tags(nil)), ts)
 	registry[reflect.TypeOf(Tags(nil))] = ref.Union(ref.Prim("null"), ref.Prim("string"))
